@@ -1,6 +1,16 @@
+(* C16 - lemmas: one bound per validator, the pipeline, the collection rule, and
+   the refresh of the dynamic lists under every interleaving with validations. *)
 From NR Require Import Lib.Base Lib.BaseFacts Lib.PyRt C16.Rt Gen.Validators Gen.Lists C16.Model C16.Spec.
 From Coq Require Import ZifyBool.
 Open Scope Z_scope.
+
+(* ================================================================== validators *)
+Lemma is_not_too_large_bound now ev cfg :
+  v_is_not_too_large now ev cfg = None <-> Z.of_nat (length (ev_content ev)) <= cf_max_event_size cfg.
+Proof.
+  unfold v_is_not_too_large.
+  destruct (Z.of_nat (length (ev_content ev)) >? cf_max_event_size cfg) eqn:E; split; try discriminate; try lia; reflexivity.
+Qed.
 
 Lemma is_recent_bound now ev cfg :
   v_is_recent now ev cfg = None <-> -3600 <= now - ev_created_at ev <= cf_oldest_event cfg.
@@ -9,4 +19,371 @@ Proof.
   destruct (now - ev_created_at ev >? cf_oldest_event cfg) eqn:E1; [split; [discriminate | lia]|].
   destruct (now - ev_created_at ev <? - (3600)) eqn:E2; [split; [discriminate | lia]|].
   split; [lia | reflexivity].
+Qed.
+
+Lemma is_certain_kind_bound now ev cfg :
+  v_is_certain_kind now ev cfg = None <-> In (ev_kind ev) (cf_valid_kinds cfg).
+Proof.
+  unfold v_is_certain_kind. rewrite <- mem_Z_In.
+  destruct (mem_Z (ev_kind ev) (cf_valid_kinds cfg)); simpl; split; congruence.
+Qed.
+
+Lemma is_author_whitelisted_bound now ev cfg :
+  v_is_author_whitelisted now ev cfg = None <-> In (ev_pubkey ev) (cf_pubkey_whitelist cfg).
+Proof.
+  unfold v_is_author_whitelisted. rewrite <- mem_str_In.
+  destruct (mem_str (ev_pubkey ev) (cf_pubkey_whitelist cfg)); simpl; split; congruence.
+Qed.
+
+Lemma is_author_blacklisted_bound now ev cfg :
+  v_is_author_blacklisted now ev cfg = None <-> ~ In (ev_pubkey ev) (cf_pubkey_blacklist cfg).
+Proof.
+  unfold v_is_author_blacklisted. rewrite <- mem_str_In.
+  destruct (mem_str (ev_pubkey ev) (cf_pubkey_blacklist cfg)); simpl; split; congruence.
+Qed.
+
+Lemma is_service_event_bound now ev cfg :
+  v_is_service_event now ev cfg = None <-> ev_kind ev <> 31494 \/ ev_pubkey ev = cf_service_pubkey cfg.
+Proof.
+  unfold v_is_service_event.
+  destruct (ev_kind ev =? 31494) eqn:E1; simpl.
+  - destruct (str_eqb (ev_pubkey ev) (cf_service_pubkey cfg)) eqn:E2; simpl.
+    + apply str_eqb_eq in E2. split; auto.
+    + apply str_eqb_neq in E2. split; [discriminate|]. intros [H|H]; [lia | contradiction].
+  - split; [left; lia | reflexivity].
+Qed.
+
+Definition p_count (ev : vevent) : Z :=
+  Z.of_nat (length (filter (fun t => str_eqb (nth 0 t []) (pys "p")) (ev_tags ev))).
+
+Lemma is_not_hellthread_bound now ev cfg :
+  v_is_not_hellthread now ev cfg = None <->
+  cf_hellthread_limit cfg = 0 \/ ~ In (ev_kind ev) [1; 7] \/ p_count ev <= cf_hellthread_limit cfg.
+Proof.
+  unfold v_is_not_hellthread, p_count.
+  destruct (cf_hellthread_limit cfg =? 0) eqn:E0; cbn [negb andb].
+  - split; [left; lia | reflexivity].
+  - destruct (mem_Z (ev_kind ev) [1; 7]) eqn:Ek.
+    + apply mem_Z_In in Ek.
+      match goal with |- context [?a >? ?b] => destruct (a >? b) eqn:E2 end.
+      * split; [discriminate|]. intros [H|[H|H]]; [lia | contradiction | lia].
+      * split; [intros _; right; right; lia | reflexivity].
+    + split; [|reflexivity]. intros _. right; left. rewrite <- mem_Z_In. congruence.
+Qed.
+
+(* the count over tags with a name agrees with the code's t[0] == "p" when no tag is empty *)
+Lemma p_count_count_p_tags ev : existsb is_nil (ev_tags ev) = false -> p_count ev = count_p_tags ev.
+Proof.
+  unfold p_count, count_p_tags. intros H. do 2 f_equal.
+  induction (ev_tags ev) as [|t l IH]; [reflexivity|]. simpl in H. apply orb_false_iff in H. destruct H as [Ht Hl].
+  simpl. rewrite (IH Hl). destruct t; [discriminate|]. reflexivity.
+Qed.
+
+(* ---------- proof of work ---------- *)
+Lemma bit_length_le n k : 0 <= n -> (bit_length n <= k <-> n < 2 ^ k).
+Proof.
+  intros Hn. unfold bit_length. destruct (n =? 0) eqn:E.
+  - assert (n = 0) by lia. subst. split; intros H.
+    + apply Z.pow_pos_nonneg; lia.
+    + destruct (Z.ltb_spec k 0) as [Hk|Hk]; [|lia]. rewrite Z.pow_neg_r in H by lia. lia.
+  - assert (0 < n) by lia. rewrite Z.abs_eq by lia.
+    destruct (Z.ltb_spec k 0) as [Hk|Hk].
+    + rewrite Z.pow_neg_r by lia. pose proof (Z.log2_nonneg n). lia.
+    + split; intros H1.
+      * apply Z.log2_lt_pow2; lia.
+      * apply Z.log2_lt_pow2 in H1; lia.
+Qed.
+
+Lemma int_of_hex_acc_nonneg h : forall acc, 0 <= acc ->
+  0 <= fold_left (fun acc c => acc * 16 + match hexval c with Some v => Z.of_N v | None => 0 end) h acc.
+Proof.
+  induction h as [|c h IH]; intros acc Ha; simpl; [assumption|].
+  apply IH. destruct (hexval c); lia.
+Qed.
+Lemma int_of_hex_nonneg h : 0 <= int_of_hex h.
+Proof. apply int_of_hex_acc_nonneg. lia. Qed.
+
+Lemma is_pow_bound now ev cfg :
+  v_is_pow now ev cfg = None <-> int_of_hex (ev_id ev) < 2 ^ (256 - cf_require_pow cfg).
+Proof.
+  unfold v_is_pow, bit_length_of_hex.
+  rewrite <- (bit_length_le _ _ (int_of_hex_nonneg (ev_id ev))).
+  match goal with |- context [?a <? ?b] => destruct (a <? b) eqn:E end; split; try discriminate; try lia; reflexivity.
+Qed.
+
+(* "that many leading zero bits": the id read as a big-endian bit string *)
+Definition b2z (b : bool) : Z := if b then 1 else 0.
+Fixpoint val_bits (l : list bool) : Z :=
+  match l with [] => 0 | b :: r => b2z b * 2 ^ Z.of_nat (length r) + val_bits r end.
+
+Lemma val_bits_range l : 0 <= val_bits l < 2 ^ Z.of_nat (length l).
+Proof.
+  induction l as [|b l IH]; simpl val_bits; simpl length.
+  - simpl. lia.
+  - rewrite Nat2Z.inj_succ, Z.pow_succ_r by lia. destruct b; simpl b2z; lia.
+Qed.
+
+Lemma bit_length_val_bits l : bit_length (val_bits l) = Z.of_nat (length l) - leading_zeros l.
+Proof.
+  induction l as [|b l IH]; [reflexivity|].
+  simpl val_bits. simpl length. rewrite Nat2Z.inj_succ. pose proof (val_bits_range l) as R.
+  destruct b; simpl b2z.
+  - simpl leading_zeros. unfold bit_length.
+    set (n := Z.of_nat (length l)) in *. assert (0 <= n) by lia.
+    assert (P : 0 < 2 ^ n) by (apply Z.pow_pos_nonneg; lia).
+    replace (1 * 2 ^ n + val_bits l =? 0) with false by lia.
+    rewrite Z.abs_eq by lia.
+    rewrite (Z.log2_unique (1 * 2 ^ n + val_bits l) n); try lia.
+    rewrite Z.pow_succ_r by lia. lia.
+  - change (leading_zeros (false :: l)) with (1 + leading_zeros l). rewrite Z.mul_0_l, Z.add_0_l, IH. lia.
+Qed.
+
+Lemma val_bits_app l1 l2 : val_bits (l1 ++ l2) = val_bits l1 * 2 ^ Z.of_nat (length l2) + val_bits l2.
+Proof.
+  induction l1 as [|b l1 IH]; simpl val_bits; [lia|].
+  rewrite IH, app_length, Nat2Z.inj_add, Z.pow_add_r by lia. lia.
+Qed.
+
+Lemma hexval_lt c v : hexval c = Some v -> (v < 16)%N.
+Proof.
+  unfold hexval. intros H.
+  destruct ((48 <=? c)%N && (c <=? 57)%N) eqn:E1; [injection H as <-; lia|].
+  destruct ((97 <=? c)%N && (c <=? 102)%N) eqn:E2; [injection H as <-; lia|].
+  destruct ((65 <=? c)%N && (c <=? 70)%N) eqn:E3; [injection H as <-; lia|]. discriminate.
+Qed.
+
+Lemma val_bits_digit v : (v < 16)%N -> val_bits (bits_of_digit v) = Z.of_N v.
+Proof.
+  intros H.
+  assert (C : (v = 0 \/ v = 1 \/ v = 2 \/ v = 3 \/ v = 4 \/ v = 5 \/ v = 6 \/ v = 7 \/ v = 8 \/ v = 9 \/ v = 10 \/
+               v = 11 \/ v = 12 \/ v = 13 \/ v = 14 \/ v = 15)%N) by lia.
+  repeat (destruct C as [->|C]; [reflexivity|]). subst. reflexivity.
+Qed.
+
+Fixpoint hex_value (h : pystr) : Z :=
+  match h with
+  | [] => 0
+  | c :: r => match hexval c with Some v => Z.of_N v | None => 0 end * 16 ^ Z.of_nat (length r) + hex_value r
+  end.
+
+Lemma int_of_hex_fold h : forall acc,
+  fold_left (fun acc c => acc * 16 + match hexval c with Some v => Z.of_N v | None => 0 end) h acc
+  = acc * 16 ^ Z.of_nat (length h) + hex_value h.
+Proof.
+  induction h as [|c h IH]; intros acc; simpl fold_left; simpl hex_value; simpl length.
+  - simpl. lia.
+  - rewrite IH, Nat2Z.inj_succ, Z.pow_succ_r by lia. lia.
+Qed.
+Lemma int_of_hex_value h : int_of_hex h = hex_value h.
+Proof. unfold int_of_hex. rewrite int_of_hex_fold. lia. Qed.
+
+Lemma bits_of_hex_length h : all_hex h = true -> Z.of_nat (length (bits_of_hex h)) = 4 * Z.of_nat (length h).
+Proof.
+  induction h as [|c h IH]; [reflexivity|]. unfold all_hex. simpl forallb. intros H. apply andb_prop in H. destruct H as [Hc Hh].
+  unfold bits_of_hex. simpl flat_map. destruct (hexval c); [|discriminate].
+  rewrite app_length. fold (bits_of_hex h). rewrite Nat2Z.inj_add, (IH Hh). simpl length. lia.
+Qed.
+
+Lemma hex_value_bits h : all_hex h = true -> hex_value h = val_bits (bits_of_hex h).
+Proof.
+  induction h as [|c h IH]; [reflexivity|]. intros H. pose proof H as H0. unfold all_hex in H. simpl forallb in H.
+  apply andb_prop in H. destruct H as [Hc Hh].
+  simpl hex_value. unfold bits_of_hex. simpl flat_map. fold (bits_of_hex h).
+  destruct (hexval c) as [v|] eqn:Ev; [|discriminate].
+  rewrite val_bits_app, (val_bits_digit v (hexval_lt _ _ Ev)), (IH Hh), (bits_of_hex_length h Hh).
+  replace (16 ^ Z.of_nat (length h)) with (2 ^ (4 * Z.of_nat (length h))); [reflexivity|].
+  rewrite Z.pow_mul_r by lia. reflexivity.
+Qed.
+
+Lemma is_pow_leading_zeros now ev cfg :
+  all_hex (ev_id ev) = true -> Z.of_nat (length (ev_id ev)) = 64 ->
+  (v_is_pow now ev cfg = None <-> cf_require_pow cfg <= leading_zeros (bits_of_hex (ev_id ev))).
+Proof.
+  intros Hh Hl. unfold v_is_pow, bit_length_of_hex.
+  rewrite int_of_hex_value, (hex_value_bits _ Hh), bit_length_val_bits, (bits_of_hex_length _ Hh), Hl.
+  match goal with |- context [?a <? ?b] => destruct (a <? b) eqn:E end; split; try discriminate; try lia; reflexivity.
+Qed.
+
+(* event.id_bytes: on 64 hex digits bytes.fromhex succeeds and only normalises the case *)
+Lemma hexval_hexdigit d : (d < 16)%N -> hexval (hexdigit d) = Some d.
+Proof.
+  intros H.
+  assert (C : (d = 0 \/ d = 1 \/ d = 2 \/ d = 3 \/ d = 4 \/ d = 5 \/ d = 6 \/ d = 7 \/ d = 8 \/ d = 9 \/ d = 10 \/
+               d = 11 \/ d = 12 \/ d = 13 \/ d = 14 \/ d = 15)%N) by lia.
+  repeat (destruct C as [->|C]; [reflexivity|]). subst. reflexivity.
+Qed.
+
+Lemma hexval_not_ws c v : hexval c = Some v -> is_ascii_ws c = false.
+Proof.
+  unfold hexval, is_ascii_ws. intros H.
+  destruct ((48 <=? c)%N && (c <=? 57)%N) eqn:E1; [lia|].
+  destruct ((97 <=? c)%N && (c <=? 102)%N) eqn:E2; [lia|].
+  destruct ((65 <=? c)%N && (c <=? 70)%N) eqn:E3; [lia|]. discriminate.
+Qed.
+
+Definition digit_ok (o : option N) : bool := match o with Some _ => true | None => false end.
+Lemma all_hex_map h : all_hex h = forallb digit_ok (map hexval h).
+Proof. unfold all_hex. induction h as [|c h IH]; [reflexivity|]. simpl. rewrite IH. reflexivity. Qed.
+Lemma bits_of_hex_map h :
+  bits_of_hex h = flat_map (fun o => match o with Some v => bits_of_digit v | None => [] end) (map hexval h).
+Proof. unfold bits_of_hex. induction h as [|c h IH]; [reflexivity|]. simpl. rewrite IH. reflexivity. Qed.
+
+Lemma fromhex_all_hex n : forall s, length s = (2 * n)%nat -> all_hex s = true ->
+  exists b, py_fromhex s = Some b /\ map hexval (hex_of_bytes b) = map hexval s.
+Proof.
+  induction n as [|n IH]; intros s Hl Hh.
+  - destruct s; [|discriminate]. exists []. split; reflexivity.
+  - destruct s as [|a [|b r]]; try (exfalso; simpl in Hl; lia).
+    unfold all_hex in Hh. simpl forallb in Hh.
+    destruct (hexval a) as [x|] eqn:Ea; [|discriminate]. destruct (hexval b) as [y|] eqn:Eb; [|discriminate].
+    simpl in Hh. destruct (IH r) as [t [Ht Hm]]; [simpl in Hl; lia | exact Hh |].
+    exists ((x * 16 + y)%N :: t). split.
+    + simpl py_fromhex. rewrite (hexval_not_ws _ _ Ea), Ea, Eb, Ht. reflexivity.
+    + pose proof (hexval_lt _ _ Ea). pose proof (hexval_lt _ _ Eb).
+      unfold hex_of_bytes. simpl flat_map. fold (hex_of_bytes t). unfold hex_of_byte. simpl map. rewrite Hm, Ea, Eb.
+      assert (D : ((x * 16 + y) / 16 = x)%N) by (symmetry; apply (N.div_unique _ 16 x y); lia).
+      assert (M : ((x * 16 + y) mod 16 = y)%N) by (symmetry; apply (N.mod_unique _ 16 x y); lia).
+      rewrite D, M.
+      rewrite !hexval_hexdigit by assumption. reflexivity.
+Qed.
+
+Lemma m_is_pow_spec now ev cfg :
+  all_hex (ev_id ev) = true -> Z.of_nat (length (ev_id ev)) = 64 ->
+  (m_is_pow now ev cfg = None <-> cf_require_pow cfg <= leading_zeros (bits_of_hex (ev_id ev))).
+Proof.
+  intros Hh Hl. unfold m_is_pow.
+  destruct (fromhex_all_hex 32 (ev_id ev)) as [b [Hb Hm]]; [lia | exact Hh |].
+  rewrite Hb.
+  assert (H1 : all_hex (ev_id (set_id ev (hex_of_bytes b))) = true) by (simpl; rewrite all_hex_map, Hm, <- all_hex_map; exact Hh).
+  assert (H2 : Z.of_nat (length (ev_id (set_id ev (hex_of_bytes b)))) = 64).
+  { simpl. rewrite <- (map_length hexval), Hm, map_length. exact Hl. }
+  rewrite (is_pow_leading_zeros now _ cfg H1 H2). simpl ev_id.
+  rewrite (bits_of_hex_map (hex_of_bytes b)), Hm, <- bits_of_hex_map. reflexivity.
+Qed.
+
+(* ---------- dynamic lists, one validation against fixed sets ---------- *)
+Lemma is_pubkey_allowed_spec allowed denied ev :
+  v_is_pubkey_allowed allowed denied ev = None <->
+  match py_fromhex (ev_pubkey ev) with
+  | Some b => (is_nil allowed || bmem b allowed) && (is_nil denied || negb (bmem b denied))
+  | None => is_nil allowed && is_nil denied
+  end = true.
+Proof.
+  unfold v_is_pubkey_allowed.
+  destruct (is_nil allowed), (is_nil denied), (py_fromhex (ev_pubkey ev)) as [b|]; simpl;
+    try destruct (bmem b allowed); try destruct (bmem b denied); simpl; split; congruence.
+Qed.
+
+(* ---------- every validator decides exactly according to its documented bound ---------- *)
+Lemma validator_spec v e ev :
+  in_domain v e ev = true -> (run_validator v e ev = None <-> spec_passes v e ev = true).
+Proof.
+  intros D. destruct v; unfold run_validator, spec_passes; cbv zeta.
+  - rewrite is_not_too_large_bound. lia.
+  - destruct (e_verify e); simpl; split; congruence.
+  - rewrite is_recent_bound. lia.
+  - rewrite is_certain_kind_bound, mem_Z_In. reflexivity.
+  - rewrite is_author_whitelisted_bound, mem_str_In. reflexivity.
+  - rewrite is_author_blacklisted_bound, <- mem_str_In.
+    destruct (mem_str (ev_pubkey ev) (cf_pubkey_blacklist (e_cfg e))); simpl; split; congruence.
+  - simpl in D. apply andb_prop in D. destruct D as [D1 D2].
+    rewrite (m_is_pow_spec _ _ _ D1) by lia. lia.
+  - simpl in D. apply negb_true_iff in D. unfold m_is_not_hellthread. rewrite D, andb_false_r.
+    rewrite is_not_hellthread_bound, (p_count_count_p_tags _ D), <- mem_Z_In.
+    destruct (cf_hellthread_limit (e_cfg e) =? 0) eqn:E0; cbn [orb].
+    { split; [reflexivity | intros _; left; lia]. }
+    destruct (mem_Z (ev_kind ev) [1; 7]) eqn:Ek; cbn [negb orb].
+    2:{ split; [reflexivity | intros _; right; left; congruence]. }
+    split.
+    + intros [H|[H|H]]; [lia | congruence | lia].
+    + intros H. right; right. lia.
+  - rewrite is_service_event_bound.
+    destruct (ev_kind ev =? 31494) eqn:E1; simpl.
+    + rewrite str_eqb_eq. split; [intros [H|H]; [lia | exact H] | intros H; right; exact H].
+    + split; [reflexivity | intros _; left; lia].
+  - apply is_pubkey_allowed_spec.
+Qed.
+
+(* ================================================================== pipeline *)
+Lemma run_in_order_none {A} (vs : list (A -> option pystr)) x :
+  run_in_order vs x = None <-> forall v, In v vs -> v x = None.
+Proof.
+  induction vs as [|v vs IH]; simpl.
+  - split; [intros _ v [] | reflexivity].
+  - destruct (v x) eqn:E.
+    + split; [discriminate|]. intros H. rewrite <- E. apply H. left; reflexivity.
+    + rewrite IH. split.
+      * intros H u [<-|Hu]; [exact E | apply H; exact Hu].
+      * intros H u Hu. apply H. right; exact Hu.
+Qed.
+
+Lemma run_in_order_some {A} (vs : list (A -> option pystr)) x err :
+  run_in_order vs x = Some err ->
+  exists pre v post, vs = pre ++ v :: post /\ (forall u, In u pre -> u x = None) /\ v x = Some err.
+Proof.
+  induction vs as [|v vs IH]; simpl; [discriminate|].
+  destruct (v x) eqn:E.
+  - intros H. injection H as <-. exists [], v, vs. split; [reflexivity|]. split; [intros u []|exact E].
+  - intros H. destruct (IH H) as [pre [w [post [-> [Hp Hw]]]]].
+    exists (v :: pre), w, post. split; [reflexivity|]. split; [|exact Hw].
+    intros u [<-|Hu]; [exact E | apply Hp; exact Hu].
+Qed.
+
+Lemma pipeline_none vs e ev :
+  pipeline vs e ev = None <-> forall v, In v vs -> run_validator v e ev = None.
+Proof.
+  unfold pipeline. rewrite run_in_order_none. split.
+  - intros H v Hv. apply (H (fun ev => run_validator v e ev)). apply in_map_iff. exists v. split; [reflexivity | exact Hv].
+  - intros H f Hf. apply in_map_iff in Hf. destruct Hf as [v [<- Hv]]. apply H. exact Hv.
+Qed.
+
+(* first raise wins: the reported error is that of the first validator, in configured order, that fails *)
+Lemma pipeline_some vs e ev err :
+  pipeline vs e ev = Some err ->
+  exists pre v post, vs = pre ++ v :: post /\ (forall u, In u pre -> run_validator u e ev = None) /\
+                     run_validator v e ev = Some err.
+Proof.
+  unfold pipeline. intros H. destruct (run_in_order_some _ _ _ H) as [pre [f [post [Hm [Hp Hf]]]]].
+  apply map_eq_app in Hm. destruct Hm as [pre' [rest [-> [<- Hr]]]].
+  destruct rest as [|v post']; [discriminate|]. simpl in Hr. injection Hr as <- <-.
+  exists pre', v, post'. split; [reflexivity|]. split; [|exact Hf].
+  intros u Hu. apply (Hp (fun ev => run_validator u e ev)). apply in_map_iff. exists u. split; [reflexivity | exact Hu].
+Qed.
+
+(* stored or broadcast only if every configured validator passed; a refusal names a
+   reason and leaves the relay state untouched *)
+Lemma submit_all vs e ev st :
+  (fst (submit vs e ev st) = Accepted <-> forall v, In v vs -> run_validator v e ev = None) /\
+  (snd (submit vs e ev st) <> st -> forall v, In v vs -> run_validator v e ev = None) /\
+  (forall err, fst (submit vs e ev st) = Refused err ->
+     snd (submit vs e ev st) = st /\
+     exists pre v post, vs = pre ++ v :: post /\ (forall u, In u pre -> run_validator u e ev = None) /\
+                        run_validator v e ev = Some err).
+Proof.
+  unfold submit. destruct (pipeline vs e ev) as [err|] eqn:P; simpl.
+  - split; [|split].
+    + split; [discriminate|]. intros H. apply pipeline_none in H. congruence.
+    + intros H. contradiction.
+    + intros err' H. injection H as <-. split; [reflexivity|]. apply pipeline_some. exact P.
+  - split; [|split].
+    + split; [intros _; apply pipeline_none; exact P | reflexivity].
+    + intros _. apply pipeline_none. exact P.
+    + intros err H. discriminate.
+Qed.
+
+(* ... and therefore only if every documented bound holds *)
+Lemma submit_bounds vs e ev st :
+  fst (submit vs e ev st) = Accepted ->
+  forall v, In v vs -> in_domain v e ev = true -> spec_passes v e ev = true.
+Proof.
+  intros H v Hv D. apply (validator_spec v e ev D). apply (proj1 (submit_all vs e ev st)); assumption.
+Qed.
+Lemma submit_refusal_justified vs e ev st err :
+  fst (submit vs e ev st) = Refused err ->
+  exists v, In v vs /\ (in_domain v e ev = true -> spec_passes v e ev = false).
+Proof.
+  intros H. destruct (proj2 (proj2 (submit_all vs e ev st)) err H) as [_ [pre [v [post [-> [_ Hv]]]]]].
+  exists v. split; [apply in_or_app; right; left; reflexivity|].
+  intros D. destruct (spec_passes v e ev) eqn:S; [|reflexivity].
+  apply (validator_spec v e ev D) in S. congruence.
 Qed.
